@@ -149,6 +149,12 @@ def lookup (m : List (Int × Int)) (k : Int) : Option Int := (m.find? (fun p => 
 def listMax (l : List Int) (d : Int) : Int := l.foldl max d
 def listMin (l : List Int) (d : Int) : Int := l.foldl min d
 
+/-- `mapping[coords[0]]` for one entry (`KeyError` when the value is not a key of the mapping) -/
+def mapEntry (m : List (Int × Int)) (e : Key × Rows) : M (Key × Rows × Int) :=
+  match lookup m (val0 e.1) with
+  | some v => pure (e.1, e.2, v)
+  | none => throw (.keyError (val0 e.1))
+
 /-- `to_array(mapping, dtype)`; `dt = none` is the default dtype chosen by `fit_dtype` -/
 def toArray (i : IIndex) (mapping : Option (List (Int × Int))) (dt : Option DT) : M Arr := do
   let mapping := match mapping with | some [] => none | m => m        -- `if not mapping`
@@ -164,9 +170,7 @@ def toArray (i : IIndex) (mapping : Option (List (Int × Int))) (dt : Option DT)
     let dt' := match dt with
       | some d => d
       | none => fitDtype (listMax mv (mv.headD 0)) (min (listMin mv (mv.headD 0)) 0)
-    let vals ← i.entries.mapM (fun e => match lookup m (val0 e.1) with
-      | some v => pure (e.1, e.2, v)
-      | none => throw (.keyError (val0 e.1)))
+    let vals ← i.entries.mapM (mapEntry m)
     scatter i ((lookup m i.common).getD 0) (some dt') vals
 
 /-- column `c` of a 2-D array, or the array itself when 1-D -/
